@@ -79,9 +79,10 @@ def _worker_run(case):
     budget = int(os.environ.get("VERIF_CASE_BUDGET", "5400" if ctx.tier == "thorough" else "600"))
 
     def _over(signum, frame):
-        raise CaseBudget("case exceeded its wall-clock budget of %d s (VERIF_CASE_BUDGET)" % budget)
-    old = signal.signal(signal.SIGALRM, _over)
-    signal.alarm(budget)
+        raise CaseBudget("case exceeded its CPU-time budget of %d s (VERIF_CASE_BUDGET)" % budget)
+    # CPU time of this worker (ITIMER_PROF), not wall-clock: a loaded machine must not turn a passing check inconclusive
+    old = signal.signal(signal.SIGPROF, _over)
+    signal.setitimer(signal.ITIMER_PROF, budget)
     from specs import common as _C
     _C.Res.current = None
     try:
@@ -102,8 +103,8 @@ def _worker_run(case):
             r = {"case": case.get("id", str(case)), "vcs": 0, "discharged": 0, "violations": [], "inconclusive": [msg]}
         r["trace"] = traceback.format_exc()[-2000:]
     finally:
-        signal.alarm(0)
-        signal.signal(signal.SIGALRM, old)
+        signal.setitimer(signal.ITIMER_PROF, 0)
+        signal.signal(signal.SIGPROF, old)
     r.setdefault("case", case.get("id", str(case)))
     r["wall"] = time.time() - t0
     return r
